@@ -22,8 +22,8 @@ type recConn struct {
 	rd     chan []byte
 	closed chan struct{}
 	once   sync.Once
-	fail   bool          // WriteTo returns an error (fault injection)
-	stall  chan struct{} // when set, WriteTo blocks until it is closed (a slow or stalled transmit path)
+	fail   bool           // WriteTo returns an error (fault injection)
+	stall  chan struct{}  // when set, WriteTo blocks until it is closed (a slow or stalled transmit path)
 	hook   func(b []byte) // when set, called inside WriteTo after the frame was recorded (a station that answers before the write returns)
 }
 
